@@ -77,6 +77,8 @@ DOCS = {
 DOCS["F"] = mk("Same Title", ["Alpha"], ["opA", "opF"], tag="store")
 for _i, (_p, _item) in enumerate(DOCS["F"]["paths"].items()):
     _item["get"]["tags"] = ["store", "../../../escaped_rel", "/tmp/specmc_c19_escaped_abs/x", "..", "a/b"][: 3 + 2 * _i]
+DOCS["N"] = mk("Same Title", ["Alpha", "Shared"], ["opA", "opShared"], tag="store")
+DOCS["N"]["components"]["schemas"]["Alpha"]["description"] = "caf\u00e9 \u2603 non-ASCII"
 USER_FILES = ("USER.txt", "user_mod.py")
 HOOK_FILES = ("HOOK_RAN.txt", "HOOK_STAMP")       # what the configured post hooks leave behind: not part of the generated tree
 
@@ -102,6 +104,11 @@ def commands(tier):
     for d in (("A",) if tier == "quick" else ("A", "B")):
         for ow in (False, True):
             cmds.append(["gen", d, "none", ow, "default", "hooks"])      # with post hooks configured: a refused generation runs nothing
+    # a generation that FAILS while writing (the document cannot be encoded as ASCII): whatever it does, the user's files stay
+    for meta in (("none",) if tier == "quick" else ("none", "poetry")):
+        cmds.append(["gen", "N", meta, True, "default", "ascii"])
+    # custom templates kept in a directory of the user's, outside the output directory
+    cmds.append(["gen", "A", "none", True, "default", "templates"])
     cmds += [["user", "root"], ["user", "pkg"], ["user", "modify"]]
     return cmds
 
@@ -136,7 +143,12 @@ def restore(root, files):
         p.write_bytes(content)
 
 
-INIT = {"sentinel/keep.txt": b"s", "work/unrelated.txt": b"u", "parent_file.txt": b"p"}
+def _templates():
+    src = Path(gen.REPO) / "openapi_python_client" / "templates" / "api_init.py.jinja"
+    return {"user_templates/api_init.py.jinja": (src.read_text(encoding="utf-8") + "\n# custom\n").encode("utf-8")}
+
+
+INIT = {"sentinel/keep.txt": b"s", "work/unrelated.txt": b"u", "parent_file.txt": b"p", **_templates()}
 
 
 def state_key(files, flavours):
@@ -184,7 +196,7 @@ def fresh(doc, meta, loc, cfgname="plain"):
     key = (doc, meta, loc, cfgname)
     if key not in _FRESH:
         sb = gen.scratch_root() / "c19fresh"
-        restore(sb, {"work/.keep": b""})
+        restore(sb, {"work/.keep": b"", **_templates()})
         before = set(read_all(sb))
         r = _invoke(sb, doc, meta, False, loc, cfgname)
         after = read_all(sb)
@@ -203,6 +215,10 @@ def _invoke(sb, doc, meta, ow, loc, cfgname="plain"):
     work.mkdir(exist_ok=True)
     docp, cfg = _docfile(doc, cfgname)
     args = ["generate", "--path", str(docp), "--meta", meta, "--config", str(cfg)] + (["--overwrite"] if ow else [])
+    if cfgname == "ascii":
+        args += ["--file-encoding", "ascii"]
+    if cfgname == "templates":
+        args += ["--custom-template-path", str(Path(sb) / "user_templates")]
     if loc == "outpath":
         args += ["--output-path", str(work / "out")]
     cwd = os.getcwd()
@@ -271,6 +287,11 @@ def step(files, flavours, cmd):
     existed = any((k + "/").startswith(outdir + "/") for k in before)
     crashed = r.exception is not None and not isinstance(r.exception, SystemExit)
     if crashed:
+        # a generation that dies half-way is C06's business; what it must never do is take the user's files with it
+        for k, v in before.items():
+            if k.split("/")[-1] in USER_FILES and not any(part in ("models", "api") for part in k.split("/")[:-1]) and after.get(k) != v:
+                viol.append({"oracle": "user-file-lost", "site": "crash", "key": key, "detail": f"the generation crashed ({type(r.exception).__name__}) and user file {k} was removed or changed"})
+                break
         shutil.rmtree(sb, ignore_errors=True)
         return after, flavours, viol, "crash"
     if existed and not ow:
